@@ -315,6 +315,12 @@ func sameOrigin(a, b ssa.Value) bool {
 			if x == y {
 				return true
 			}
+			// two loads of the same field of the same object
+			bx, fx, nx := fieldLoad(x)
+			by, fy, ny := fieldLoad(y)
+			if nx != nil && nx == ny && fx == fy && (bx == by || (bx != nil && by != nil && stripFieldBase(bx) == stripFieldBase(by))) {
+				return true
+			}
 		}
 	}
 	return false
